@@ -12,6 +12,7 @@ func init() {
 			"ERR-LOOP: groupEntries, ReadStepResponse, iterators.ForEach check Err() before a successful return",
 			"ERR-PROP: errors of ContainerList/ContainerLogs/openLog/parseNext/selectLogs/Build/ReadStepResponse/evalExpr/Eval reach failure exits",
 			"PV-GO: concurrent opens join before cleanup/merge",
+			"C03's decoder rules (stream read API, fault exits) are re-checked here: a malformed frame at any position is an error",
 		},
 		NotDecided: []string{"that Close of the Docker client's body releases the connection", "double close", "context cancellation"},
 		Rules: func(r *Run) {
@@ -22,6 +23,7 @@ func init() {
 			ruleErrLoop(r, []string{enginePkg, metricPkg, itersPkg})
 			rulePVGo(r)
 			ruleErrChainC14(r)
+			ruleDaemonLog(r)
 		},
 	})
 }
